@@ -33,6 +33,9 @@ class Spec(core.PropSpec):
         rc = st("company")
         plan["company"] = T.gen_company(rc, w) if w["configs"] and rc.random() < 0.2 else None
         plan["overlap"] = [[rc.randint(0, 12), rc.randint(1, 4)] for _ in range(rc.randint(1, 2))] if rc.random() < 0.2 else None
+        # a side sampler fails in the middle of one of its passes (mutually exclusive with the above: they iterate the same samplers)
+        plan["side_fault"] = dict(ci=rc.randint(0, 5), p=rc.choice([0, 0, 1, 2]), k=rc.randint(0, 5)) \
+            if w["configs"] and not plan["company"] and not plan["overlap"] and not plan["peek"] and not plan["reiterate"] and rc.random() < 0.25 else None
         return plan
 
     def shrink_candidates(self, plan):
@@ -40,6 +43,11 @@ class Spec(core.PropSpec):
             yield dict(plan, company=None)
         if plan.get("overlap"):
             yield dict(plan, overlap=None)
+        if plan.get("side_fault"):
+            yield dict(plan, side_fault=None)
+            for f in ("p", "k"):
+                if plan["side_fault"][f] > 0:
+                    yield dict(plan, side_fault=dict(plan["side_fault"], **{f: plan["side_fault"][f] - 1}))
         yield from T.world_candidates(plan)
         yield from super().shrink_candidates(plan)
 
@@ -63,7 +71,7 @@ class Spec(core.PropSpec):
                 hist, terminated = T.run_sampler(w, via=plan["via"], cap=cap, sampler=s_obj, log=s_log)
             else:
                 hist, terminated = T.run_sampler(w, via=plan["via"], cap=cap, foreign_epoch=plan.get("foreign_epoch"),
-                                                 company=plan.get("company"), overlap=plan.get("overlap"))
+                                                 company=plan.get("company"), overlap=plan.get("overlap"), side_fault=plan.get("side_fault"))
                 if plan.get("company"):
                     out.count("fault:config_objects_shared_with_second_sampler")
                 if plan.get("overlap"):
@@ -88,10 +96,19 @@ class Spec(core.PropSpec):
             return out
         out.events = hist
         M = w["M"]
+        loud = bool(hist) and hist[-1] == ["raised"]
+        hist = [e for e in hist if e not in (["raised"], ["side-sampler-fails"])]
         got = T.main_projection(hist, M)
         exp = T.main_projection(ref, M)
         site = f"budget={w['budget'][0]},drop_last={int(w['drop_last'])}"
-        if not terminated:
+        if any(e == ["side-sampler-fails"] for e in out.events):
+            out.count("fault:side_sampler_fails_mid_pass")
+        if loud:
+            # the stream ended with the injected error: everything handed out before must be a prefix of the fault-free stream
+            out.count("side_sampler_failure_ended_the_stream_loudly")
+            if exp[:len(got)] != got:
+                out.violate("C04:main-stream-mismatch", site, "before the injected side-sampler failure: " + str(T.first_diff(got, exp[:len(got)])))
+        elif not terminated:
             out.violate("C04:no-termination", site, f"more than {cap} indices yielded; reference history has {len(ref)} events")
         else:
             d = T.first_diff(got, exp)
